@@ -4,6 +4,8 @@ Case lines
   `<id> c10|b10 <period> <input-hex>` LZ10CompressionFormat::compress   → `ok <hex> rt=ok`
   `<id> c13|b13 <period> <input-hex>` LZ13CompressionFormat::compress   → `ok <hex> rt=ok alloc=ok`
   (`c*`: judged against the C08/C09 clauses; `b*`: against the C10 size bounds)
+  `<id> g10|g13 <kind> <r> <m> s<seed> <n>`  as `b*` on a generated periodic input: pattern `genPattern kind r m seed`
+      (same splitmix64 as the harness) repeated to `n` bytes; claimed period = pattern length
   `<id> d10|d13|f10|f13 <stream-hex>` LZ10/LZ13/CompressionFormat::decompress → `ok <hex> x=ok` | `err Invalid x=ok` | `panic`
 `period` is a period the generator claims for the input (0 = none); the oracle re-checks it.
 -/
@@ -17,6 +19,34 @@ open Mila Mila.Lz
 
 
 def baEq (a b : BA) : Bool := a == b
+
+/-- splitmix64 byte stream shared with `harness/src/fam/lz.rs` (`sm_bytes`). -/
+def smBytes (seed : UInt64) (len : Nat) : BA := Id.run do
+  let mut st := seed
+  let mut out : BA := Array.mkEmpty len
+  for _ in [0:len] do
+    st := st + 0x9E3779B97F4A7C15
+    let mut z := st
+    z := (z ^^^ (z >>> 30)) * 0xBF58476D1CE4E5B9
+    z := (z ^^^ (z >>> 27)) * 0x94D049BB133111EB
+    out := out.push (z ^^^ (z >>> 31)).toUInt8
+  return out
+
+/-- Patterns of the generated periodic inputs (see `gen_pattern` in the harness). -/
+def genPattern (kind r m : Nat) (seed : UInt64) : BA :=
+  let pat := smBytes seed r
+  if kind == 0 then pat else
+  let pat := if m < r && pat.getD m 0 == pat.getD 0 0 then pat.modify m (· ^^^ 0x55) else pat
+  let head := pat.extract 0 m
+  let tail := pat.extract (r - m) r
+  let pat := pat ++ head
+  if kind == 2 then pat ++ tail else pat
+
+def periodicInput (pat : BA) (n : Nat) : BA := Id.run do
+  let mut out : BA := Array.mkEmpty n
+  for i in [0:n] do
+    out := out.push (pat.getD (i % pat.size) 0)
+  return out
 
 /-- Is `p` a period of `x`? -/
 def isPeriodic (x : BA) (p : Nat) : Bool :=
@@ -168,6 +198,14 @@ def family : Family where
     | [_, "b13", p, x] =>
       let x := (hexOrBad x).toArray
       ((), modelCompress true x, oracleBounds true p.toNat! x i)
+    | [_, "g10", kind, r, m, seed, n] =>
+      let pat := genPattern kind.toNat! r.toNat! m.toNat! (UInt64.ofNat (seed.drop 1).toString.toNat!)
+      let x := periodicInput pat n.toNat!
+      ((), modelCompress false x, oracleBounds false pat.size x i)
+    | [_, "g13", kind, r, m, seed, n] =>
+      let pat := genPattern kind.toNat! r.toNat! m.toNat! (UInt64.ofNat (seed.drop 1).toString.toNat!)
+      let x := periodicInput pat n.toNat!
+      ((), modelCompress true x, oracleBounds true pat.size x i)
     | [_, kind, s] =>
       if kind == "d10" || kind == "d13" || kind == "f10" || kind == "f13" then
         let s := hexOrBad s
